@@ -44,6 +44,17 @@ SEEDS = {
             "a NaN in a DOUBLE column compared with a SQL operator (IEEE semantics) while ORDER BY / GROUP BY / joins keep the total order", ["C19"]),
     "C20": ("C20", "src/binder/copy.rs from_options: `escape = None` -> `Some(quote)` taken before the QUOTE option is parsed",
             "a non-default QUOTE option and a string cell containing a double quote that must also be quoted (contains the delimiter / quote / newline)", ["C20"]),
+    # ---- second round (variant hints: a different site than the first seed of the property)
+    "C01b": ("C01", "src/planner/rules/plan.rs pushdown-join-condition-left: join-type guard `[Inner, RightOuter, Semi]` -> `[Inner, LeftOuter, Semi]`",
+             "a LEFT OUTER JOIN whose ON clause has a left-only conjunct next to another conjunct, and a left row failing that conjunct (it must come back NULL-padded)", ["C01", "C02"]),
+    "C03b": ("C03", "src/storage/secondary/storage.rs bootstrap: the 'delete vector of a dropped table is skipped' guard removed from the DV loop (kept in the row-set loop)",
+             "a table with a delete vector whose row-set is later compacted away (the stale AddDV stays in the manifest), then DROP TABLE, then a reopen", ["C03"]),
+    "C04b": ("C04", "src/storage/secondary/version_manager.rs rewrite_changes: the old manifest.json is removed before the compacted manifest.tmp.json is renamed over it",
+             "a crash during recovery exactly between the remove and the rename: the next open finds no manifest, creates an empty one and vacuums every row-set", ["C04"]),
+    "C08b": ("C08", "src/storage/secondary/version_manager.rs find_vacuum: the vacuum horizon is the newest pinned epoch (`keys().max()`) instead of the oldest",
+             "a reader pinned at e1 still scanning, a commit deleting its row-sets at e2 > e1, another version pinned at >= e2, and a third pin released (waking the vacuum)", ["C08"]),
+    "C10b": ("C10", "src/storage/secondary/manifest.rs drop_table_inner: the manifest write happens before the 'table still exists' check (apply_drop_table)",
+             "two sessions dropping the same table, the second binding before the first finishes: two DropTable records, the directory cannot be reopened", ["C10"]),
 }
 
 
